@@ -305,6 +305,37 @@ var Bodies = []Body{
 		b := canvas.Ellipse(3, 1).Transform(canvas.Identity.Translate(1, 0.5).Rotate(30))
 		return a.And(b).String() + "|" + a.Or(b).String() + "|" + a.Append(b).Settle(canvas.EvenOdd).String()
 	}},
+	// the line breaker itself, on item lists of its own: a paragraph that cannot be broken within
+	// text.Tolerance (six words of 10 in a column of 26: the breaker has to raise its tolerance for this
+	// paragraph) and one with exactly one breaking within the tolerance and a cheaper one just above
+	// it (ratio 2.1) - whatever a call keeps of its raised tolerance shows in the next paragraph
+	{Name: "text.Linebreak(paragraph not breakable within Tolerance)", Hist: true, Run: func() string {
+		var items []text.Item
+		for i := 0; i < 6; i++ {
+			if 0 < i {
+				items = append(items, text.Glue(2.0, 1.0, 0.5))
+			}
+			items = append(items, text.Box(10.0))
+		}
+		items = append(items, text.Glue(0.0, math.Inf(1.0), 0.0), text.Penalty(0.0, -text.Infinity, false))
+		return linebreakDump(items, 26.0)
+	}},
+	{Name: "text.Linebreak(paragraph with a cheaper breaking just above Tolerance)", Hist: true, Run: func() string {
+		items := []text.Item{
+			text.Box(13.0), text.Glue(2.0, 1.0, 1.0), text.Box(12.9), text.Glue(2.0, 1.0, 1.0), text.Box(0.9), text.Penalty(0.0, 990.0, false), text.Box(10.0),
+			text.Glue(0.0, math.Inf(1.0), 0.0), text.Penalty(0.0, -text.Infinity, false),
+		}
+		return linebreakDump(items, 30.0)
+	}},
+}
+
+func linebreakDump(items []text.Item, width float64) string {
+	breaks, ok := text.Linebreak(items, width, 0)
+	s := fmt.Sprintf("fits=%v", ok)
+	for _, b := range breaks {
+		s += fmt.Sprintf("|%d:%.9g", b.Position, b.Ratio)
+	}
+	return s
 }
 
 // PoolUsers is the number of leading bodies that go through the sweep-line pools.
